@@ -57,7 +57,8 @@ impl NotifyState {
 // Encode worker state in usize
 const INIT: usize = 0; // not yet polled or enabled
 const ENABLED: usize = 1; // enabled but not notified
-const NOTIFIED: usize = 2; // notified
+const NOTIFIED: usize = 2; // notified by `notify_waiters`, or the notification has been observed
+const NOTIFIED_ONE: usize = 3; // notified by `notify_one`, and the future has not yet observed it
 
 #[derive(Debug)]
 struct Waiter {
@@ -153,8 +154,9 @@ impl Notify {
             trace!("notify_one for {:?} waking waiter {:?}", self, waiter.id);
             // Must set flag before notifying waiter.
             // The send may fail if the Notified future is dropped between the flag store
-            // and the send (the flag is already NOTIFIED, so the future already completed).
-            waiter.flag.store(NOTIFIED, Ordering::SeqCst);
+            // and the send (the flag is already set, so the drop handler has passed the
+            // notification on).
+            waiter.flag.store(NOTIFIED_ONE, Ordering::SeqCst);
             let _ = waiter.tx.send(());
         }
     }
@@ -230,6 +232,11 @@ impl Notified<'_> {
 
     fn poll_inner(&self) -> bool {
         let flag = self.flag.load(Ordering::SeqCst);
+        if flag == NOTIFIED_ONE {
+            // The notification has now been received by this future
+            self.flag.store(NOTIFIED, Ordering::SeqCst);
+            return true;
+        }
         if flag == NOTIFIED {
             return true;
         }
@@ -279,10 +286,19 @@ impl PinnedDrop for Notified<'_> {
             self.flag.load(Ordering::SeqCst)
         );
         // We're using std::sync::Atomics here, so no context switching will happen here
-        if self.flag.load(Ordering::SeqCst) != NOTIFIED {
-            // If the waiter hasn't been notified, remove it from the waiter queue
-            let mut state = self.notify.state.lock().unwrap();
-            let _ = state.remove_waiter(self.id);
+        match self.flag.load(Ordering::SeqCst) {
+            NOTIFIED => {}
+            NOTIFIED_ONE => {
+                // This future was chosen by `notify_one` but is dropped without having
+                // received the notification: as in tokio, pass it on to another waiter (or
+                // store it as a permit) instead of losing it.
+                self.notify.notify_one();
+            }
+            _ => {
+                // If the waiter hasn't been notified, remove it from the waiter queue
+                let mut state = self.notify.state.lock().unwrap();
+                let _ = state.remove_waiter(self.id);
+            }
         }
     }
 }
